@@ -36,6 +36,7 @@ type Config struct {
 	Verbose     bool
 	MaxConcretize int
 	Params      map[string]int
+	NoIncremental bool
 	SampleDone  int // number of completed paths whose model is kept for native validation
 }
 
@@ -145,7 +146,7 @@ func (in *Interp) finish(s *State) {
 	case Done:
 		in.St.Done++
 		if len(in.DoneVectors) < in.cfg.SampleDone && len(s.fails) == 0 && in.St.Done%3 == 1 {
-			if r, err := in.sol.Check(s.pcList()); err == nil && r == smt.Sat {
+			if r, err := in.check(s); err == nil && r == smt.Sat {
 				m, _ := in.sol.Model(in.traceVars(s))
 				in.DoneVectors = append(in.DoneVectors, in.vector(s, m))
 			}
@@ -190,7 +191,7 @@ func (in *Interp) finish(s *State) {
 // fail records a terminal-state failure with a model of the path condition.
 func (in *Interp) fail(s *State, kind, label, pos string) {
 	f := &Failure{Kind: kind, Label: label, Pos: pos, Choices: s.choices()}
-	r, err := in.sol.Check(s.pcList())
+	r, err := in.check(s)
 	if err == nil && r == smt.Sat {
 		m, _ := in.sol.Model(in.traceVars(s))
 		f.Model = m
@@ -410,6 +411,13 @@ func (in *Interp) addPC(s *State, c *term.Term) {
 	s.pc = &pcNode{parent: s.pc, c: c, id: in.pcSeq, depth: d}
 }
 
+func (in *Interp) check(s *State, extra ...*term.Term) (smt.Result, error) {
+	if in.cfg.NoIncremental {
+		return in.sol.Check(append(s.pcList(), extra...))
+	}
+	return in.sol.CheckInc(s.pcItems(), extra)
+}
+
 // feasible: is pc ∧ c satisfiable?  unknown counts as feasible.
 func (in *Interp) feasible(s *State, c *term.Term) bool {
 	if c.IsTrue() {
@@ -426,7 +434,7 @@ func (in *Interp) feasible(s *State, c *term.Term) bool {
 	if v, ok := in.feasCache[key]; ok {
 		return v
 	}
-	r, err := in.sol.Check(append(s.pcList(), c))
+	r, err := in.check(s, c)
 	if err != nil {
 		in.St.FeasUnknown++
 		if in.cfg.Verbose {
